@@ -881,6 +881,27 @@ def emit_edits(s, cmds, c, t, valslot):
                   *[w for a, v in attrs for w in (a, hexs(v))])
 
 
+def marker_check(cmds, r, k):
+    """pseudo commands that state what the NEXT / PREVIOUS results must be:
+       #must0 <words>   the next command must return 0 (<words> say what it is)
+       #eqres <i> <j>   the results of the commands i and j positions back must be equal"""
+    if k and cmds[k - 1].startswith("#must0") and rc(r[k]) != 0:
+        made = next((cmds[i] for i in range(k - 1, -1, -1) if cmds[i].startswith(("xdup ", "xmerge "))), "")
+        return "%s failed: %s -> %s (the copy was made by: %s)" % (cmds[k - 1][7:], cmds[k][:60], r[k][:80], made[:60])
+    if cmds[k].startswith("#eqres"):
+        w = cmds[k].split(" ")
+        i, j = int(w[1]), int(w[2])
+        if r[k - i] != r[k - j]:
+            return "%s: results of [%s] and [%s] differ: %s" % (" ".join(w[3:]), cmds[k - i][:50], cmds[k - j][:50],
+                                                               first_diff_text(r[k - i], r[k - j]))
+    return None
+
+
+def first_diff_text(a, b):
+    n = next((i for i, (x, y) in enumerate(zip(a, b)) if x != y), min(len(a), len(b)))
+    return "at offset %d: ...%s | ...%s" % (n, a[max(0, n - 40):n + 60], b[max(0, n - 40):n + 60])
+
+
 # ------------------------------------------------------------------------------------------------
 # DupMatrix
 # ------------------------------------------------------------------------------------------------
@@ -1131,6 +1152,9 @@ class DupMatrix(Oracle):
         for k, (c, res) in enumerate(zip(cmds, r)):
             w = c.split(" ")
             op = w[0]
+            f = marker_check(cmds, r, k)
+            if f:
+                return (None, f)
             if op == "#S":
                 S = json.loads(unhex(w[1]).decode())
             elif op in ("ctx", "mod", "parse", "parseop"):
@@ -1225,8 +1249,8 @@ class DupMatrix(Oracle):
             elif op == "inv":
                 if res != "ok":
                     return (None, "duplicate breaks a tree invariant: %s (after %s)" % (res, cmds[k - 2][:80]))
-            elif op in ("free", "freen", "chg", "dup", "xanyset", "xopaq", "xpriv"):
-                t = (w[2] if op == "dup" else w[2] if op == "xopaq" else w[1]).split("#")[0].rstrip("^")
+            elif op in ("free", "freen", "chg", "dup", "xanyset", "xopaq", "xpriv", "rt", "val"):
+                t = (w[2] if op in ("dup", "xopaq", "rt") else w[1]).split("#")[0].rstrip("^")
                 last[t] = None
                 pend.pop(t, None)
                 if op == "free":
@@ -1469,6 +1493,9 @@ class MergeKinds(Oracle):
         for k, (c, res) in enumerate(zip(cmds, r)):
             w = c.split(" ")
             op = w[0]
+            f = marker_check(cmds, r, k)
+            if f:
+                return (None, f)
             if op == "#S":
                 S = json.loads(unhex(w[1]).decode())
             elif op in ("ctx", "mod", "parse", "parseop"):
@@ -1532,8 +1559,8 @@ class MergeKinds(Oracle):
             elif op == "xctxof":
                 if res != "ok":
                     return (None, "a node of the duplicated source belongs to another context (%s)" % res)
-            elif op in ("free", "dup", "xanyset", "xopaq"):
-                t = (w[2] if op in ("dup", "xopaq") else w[1]).split("#")[0].rstrip("^")
+            elif op in ("free", "dup", "xanyset", "xopaq", "rt", "val"):
+                t = (w[2] if op in ("dup", "xopaq", "rt") else w[1]).split("#")[0].rstrip("^")
                 last[t] = None
                 pend.pop(t, None)
                 if op in ("xanyset", "xopaq") and res != "-" and rc(res) != 0 and not (op == "xanyset" and w[2] == "b" and rc(res) == 6):
@@ -1560,3 +1587,314 @@ class MergeFamilies(MergeKinds):
 
     def make_case(self, rng, i):
         return family_case(rng, i, merge=True)
+
+
+# ------------------------------------------------------------------------------------------------
+# OriginUse: origin format of the source x later use of the copy
+# ------------------------------------------------------------------------------------------------
+M4_YANG = """module m4 {
+  yang-version 1.1;
+  namespace "urn:verif:m4";
+  prefix m4;
+  import ietf-yang-metadata { prefix md; }
+  identity base-id;
+  identity id-a { base base-id; }
+  identity id-b { base base-id; }
+  typedef u-all {
+    type union {
+      type int8;
+      type enumeration { enum up; enum down; }
+      type bits { bit b0; bit b1; bit b7 { position 7; } }
+      type identityref { base base-id; }
+      type boolean;
+      type decimal64 { fraction-digits 2; }
+      type instance-identifier { require-instance false; }
+      type binary { length "3"; }
+      type string { length "1..9"; }
+    }
+  }
+  md:annotation mu { type u-all; }
+  container top {
+    leaf u1 { type u-all; }
+    leaf u2 { type u-all; }
+    leaf u3 { type u-all; default "down"; }
+    leaf-list ul { type u-all; ordered-by user; }
+    leaf-list sl { type union { type int16; type enumeration { enum up; enum down; } type string { length "1..4"; } } }
+    list l {
+      key "k";
+      leaf k { type union { type int8; type enumeration { enum up; enum down; } type string { length "1..4"; } } }
+      leaf v { type u-all; }
+      leaf liid { type instance-identifier { require-instance false; } }
+      leaf-list w { type u-all; }
+    }
+    leaf idr { type identityref { base base-id; } }
+    leaf iid { type instance-identifier; }
+    leaf lr { type leafref { path "../idr"; } }
+    leaf lru { type leafref { path "../u1"; } }
+    leaf bin { type binary; }
+    leaf bts { type bits { bit x; bit y; bit z; } }
+    leaf d64 { type decimal64 { fraction-digits 3; } }
+    anydata ad;
+    anyxml ax;
+  }
+  leaf-list tu { type u-all; }
+}
+"""
+
+
+def m4_schema():
+    def e(k, o, key=False, nk=0, uo=False):
+        return {"k": k, "key": key, "nk": nk, "uo": uo, "ord": o, "mi": 0}
+    S = {"m4:top": e("container", 0), "m4:tu": e("leaf-list", 1)}
+    for i, (n, k) in enumerate([("u1", "leaf"), ("u2", "leaf"), ("u3", "leaf"), ("ul", "leaf-list"), ("sl", "leaf-list"), ("l", "list"),
+                                ("idr", "leaf"), ("iid", "leaf"), ("lr", "leaf"), ("lru", "leaf"), ("bin", "leaf"), ("bts", "leaf"),
+                                ("d64", "leaf"), ("ad", "anydata"), ("ax", "anyxml")]):
+        S["m4:" + n] = e(k, i, nk=1 if k == "list" else 0, uo=(n == "ul"))
+    S["m4:k"] = e("leaf", 0, key=True)
+    S["m4:v"] = e("leaf", 1)
+    S["m4:liid"] = e("leaf", 2)
+    S["m4:w"] = e("leaf-list", 3)
+    return S
+
+
+U_MEMBERS = [lambda r: str(r.randrange(-128, 128)), lambda r: r.choice(["up", "down"]), lambda r: r.choice(["b0", "b0 b1", "b1 b7", "b7"]),
+             lambda r: r.choice(["m4:id-a", "m4:id-b"]), lambda r: r.choice(["true", "false"]),
+             lambda r: "%d.%02d" % (r.randrange(-99, 100), r.randrange(0, 100)),
+             lambda r: r.choice(["/m4:top/m4:u1", "/m4:top/m4:l[m4:k='up']/m4:v", "/m4:tu[.='7']"]),
+             lambda r: r.choice(["AQID", "////", "QUJD"]),
+             lambda r: r.choice(["zz zz", "x", "a:b", "not/id", "Hello!"])]
+
+
+def u_val(rng):
+    return U_MEMBERS[rng.randrange(len(U_MEMBERS))](rng)
+
+
+def m4_doc(rng, keys=None):
+    """(XML document, list keys used): every value kind with format-dependent stored state"""
+    ks = list(keys) if keys and rng.random() < 0.8 else []
+    pool = ["1", "-7", "up", "down", "ab", "zz", "42", "q"]
+    while len(ks) < 2 or (len(ks) < 5 and rng.random() < 0.5):
+        k = rng.choice(pool)
+        if k not in ks:
+            ks.append(k)
+    if keys and rng.random() < 0.5:
+        ks = rng.sample(ks, rng.randrange(1, len(ks) + 1))
+
+    def leaf(n, v, meta=True):
+        a = (' m4:mu="%s"' % yanggen.xml_attr(u_val(rng))) if meta and rng.random() < 0.25 else ""
+        return "<%s%s>%s</%s>" % (n, a, yanggen.xml_text(v), n)
+    x = '<top xmlns="urn:verif:m4" xmlns:m4="urn:verif:m4">'
+    x += leaf("u1", u_val(rng))
+    if rng.random() < 0.8:
+        x += leaf("u2", u_val(rng))
+    if rng.random() < 0.5:
+        x += leaf("u3", u_val(rng))
+    seen = set()
+    for _ in range(rng.randrange(0, 5)):
+        v = u_val(rng)
+        if v not in seen:
+            seen.add(v)
+            x += leaf("ul", v)
+    for v in sorted(set(rng.choice(["-3", "5", "300", "up", "down", "ab", "zz"]) for _ in range(rng.randrange(0, 5)))):
+        x += leaf("sl", v)
+    for k in ks:
+        x += "<l>" + leaf("k", k, False)
+        if rng.random() < 0.8:
+            x += leaf("v", u_val(rng))
+        if rng.random() < 0.5:
+            x += leaf("liid", rng.choice(["/m4:top/m4:u2", "/m4:top/m4:l[m4:k='%s']/m4:v" % k]))
+        seen = set()
+        for _ in range(rng.randrange(0, 3)):
+            v = u_val(rng)
+            if v not in seen:
+                seen.add(v)
+                x += leaf("w", v)
+        x += "</l>"
+    idr = rng.random() < 0.8
+    if idr:
+        x += leaf("idr", rng.choice(["m4:id-a", "m4:id-b"]))
+    if rng.random() < 0.7:
+        x += leaf("iid", "/m4:top/m4:u1")
+    if idr and rng.random() < 0.6:
+        x += leaf("lr", x.split("<idr")[1].split(">")[1].split("<")[0])
+    if rng.random() < 0.6:
+        x += leaf("lru", x.split("<u1")[1].split(">")[1].split("<")[0].replace("&lt;", "<").replace("&amp;", "&"))
+    if rng.random() < 0.7:
+        x += leaf("bin", rng.choice(["AQID", "", "aGVsbG8=", "/w=="]))
+    if rng.random() < 0.7:
+        x += leaf("bts", rng.choice(["x", "x z", "y z", ""]))
+    if rng.random() < 0.7:
+        x += leaf("d64", "%d.%03d" % (rng.randrange(-50, 50), rng.randrange(0, 1000)))
+    if rng.random() < 0.6:
+        x += "<ad>%s</ad>" % any_xml(rng, False)
+    if rng.random() < 0.6:
+        x += "<ax>%s</ax>" % any_xml(rng, True)
+    x += "</top>"
+    seen = set()
+    for _ in range(rng.randrange(0, 4)):
+        v = u_val(rng)
+        if v not in seen:
+            seen.add(v)
+            x += '<tu xmlns="urn:verif:m4" xmlns:m4="urn:verif:m4">%s</tu>' % yanggen.xml_text(v)
+    return x, ks
+
+
+class OriginUse(Oracle):
+    """C14 origin format x later use of the copy: source trees obtained from XML, JSON and LYB documents (validated and
+    LYD_PARSE_ONLY) holding every value type with format-dependent stored state (unions of every member kind - also as list
+    keys, leaf-list values and metadata -, instance-identifier, identityref, leafref, binary, bits, decimal64, anydata); every
+    duplicate (all entry points, other context) and every merge result (copying and consuming) is judged like in dupmatrix /
+    mergekinds AND then used: printed as XML, JSON and LYB, each parsed back and compared with lyd_compare_siblings, the LYB
+    bytes compared with those of the original, lyd_validate_all on the copy, compared with the original"""
+    name = "originuse"
+    driver = DRIVER
+    quick_sanitize = True
+    P_ALL = 0x21                      # LYD_PRINT_WITHSIBLINGS | LYD_PRINT_WD_ALL
+    ORIGINS = [("x", 0), ("j", 0), ("b", 0), ("x", 1), ("j", 1), ("b", 1)]       # (format, LYD_PARSE_ONLY?)
+
+    def __init__(self):
+        self._d = DupMatrix()
+        self._m = MergeKinds()
+
+    def use(self, s, c, t, orig=None, exact=False, validated=True, flags=False):
+        """push the copy in slot t (context c) through the printers, the parsers, validation and compare. orig: slot of the
+        tree the copy must be equal to (exact: a full duplicate with metadata; flags: the node flags were copied too). The
+        XML / JSON round trip itself is C01's matter: here the copy only has to behave like its original"""
+        what = "t%d" % t
+        names = {"x": "XML", "j": "JSON", "b": "LYB"}
+        for fmt in "xj":
+            s.add("#must0", "printing the copy (%s) as %s" % (what, names[fmt]))
+            s.add("print", "t%d" % t, fmt, self.P_ALL)
+            if orig is not None and exact:
+                s.add("print", "t%d" % orig, fmt, self.P_ALL)
+                s.add("#eqres", 2, 1, "%s document of the duplicate (%s) and of the original (t%d)" % (names[fmt], what, orig))
+                s.add("rt", "t%d" % orig, "t14", fmt, self.P_ALL, PARSE_ONLY | PARSE_STRICT, 0, "c%d" % c)
+                s.add("rt", "t%d" % t, "t15", fmt, self.P_ALL, PARSE_ONLY | PARSE_STRICT, 0, "c%d" % c)
+                s.add("#eqres", 2, 1, "parsing the %s print of the original (t%d) and of the duplicate (%s)" % (names[fmt], orig, what))
+                s.add("#must0", "lyd_compare_siblings(%s print of the original parsed back, %s print of the duplicate parsed back)"
+                      % (names[fmt], names[fmt]))
+                s.add("cmp", "t14", "t15", 1)
+        s.add("#must0", "printing the copy (%s) as LYB and parsing it back" % what)
+        s.add("rt", "t%d" % t, "t15", "b", self.P_ALL, PARSE_ONLY | PARSE_STRICT, 0, "c%d" % c)
+        s.add("#must0", "lyd_compare_siblings(copy %s, its LYB print parsed back)" % what)
+        s.add("cmp", "t%d" % t, "t15", 1)
+        if orig is not None and exact and flags:
+            s.add("print", "t%d" % orig, "b", 1)
+            s.add("print", "t%d" % t, "b", 1)
+            s.add("#eqres", 2, 1, "LYB document of the original (t%d) and of its duplicate (%s)" % (orig, what))
+        if validated:
+            s.add("dump", "t%d" % t, 2)
+            s.add("#must0", "lyd_validate_all on the copy (%s)" % what)
+            s.add("val", "t%d" % t, "c%d" % c, VAL_PRESENT)
+            s.add("dump", "t%d" % t, 2)
+            s.add("#eqres", 4, 1, "validating the copy (%s) changed it" % what)
+            s.add("#must0", "printing the validated copy (%s) as LYB and parsing it back" % what)
+            s.add("rt", "t%d" % t, "t15", "b", self.P_ALL, PARSE_ONLY | PARSE_STRICT, 0, "c%d" % c)
+        if orig is not None and exact:
+            s.add("#must0", "lyd_compare_siblings(original t%d, duplicate %s)" % (orig, what))
+            s.add("cmp", "t%d" % orig, "t%d" % t, 1)
+
+    def gen(self, rng, tier, scale=1.0):
+        S = m4_schema()
+        pre = []
+        for i in range(self.n(tier, 30, 400, scale)):
+            da, keys = m4_doc(rng)
+            db, _ = m4_doc(rng, keys)
+            for kind in ("dup", "merge"):
+                s = Script()
+                s.add("#S", hexs(json.dumps(S, separators=(",", ":"))))
+                s.add("#J", kind)
+                for c in (0, 1):
+                    s.ctx(c)
+                    s.mod(M4_YANG, c)
+                s.parse(0, "x", da)
+                s.parse(1, "x", db)
+                # the origin trees: slots 20.. (of A) and 26.. (of B), one per (format, validated?)
+                for j, (fmt, ponly) in enumerate(self.ORIGINS):
+                    for base, src in ((20, 0), (26, 1)):
+                        if fmt == "x" and not ponly:
+                            s.add("dup", "t%d" % src, "t%d" % (base + j), DUP_RECURSIVE | DUP_WITH_FLAGS)
+                        elif fmt == "x":
+                            s.parse(base + j, "x", da if src == 0 else db, PARSE_ONLY | PARSE_STRICT, 0)
+                        else:
+                            s.add("rt", "t%d" % src, "t%d" % (base + j), fmt, 1, (PARSE_ONLY if ponly else 0) | PARSE_STRICT,
+                                  0 if ponly else VAL_PRESENT)
+                n0 = len(s.cmds)
+                for t in range(20, 32):
+                    s.add("count", "t%d" % t)
+                pre.append((s, n0, kind, "<ad>" in da or "<ax>" in da))
+        outs = stage1([script_line(s) for s, _, _, _ in pre])
+        L = []
+        for (s, n0, kind, hasany), out in zip(pre, outs):
+            r = results(out)
+            if crashed(out) or len(r) < n0 + 13 or any(rc(x) != 0 for x in r[2:9]):
+                L.append(script_line(s))
+                continue
+            # (an origin tree that could not be produced - the print / parse round trip of the format is C01's matter - is
+            # not used)
+            usable = [t for t in range(20, 32) if r[n0 + t - 20] not in ("0", "")]
+            s.cmds = s.cmds[:n0]
+            order = [j for j in range(len(self.ORIGINS)) if 20 + j in usable]
+            rng.shuffle(order)
+            tail = Script()
+            for j in order[:4 if tier != "thorough" else 6]:
+                fmt, ponly = self.ORIGINS[j]
+                o = 20 + j
+                s.add("xdump", "t%d" % o)
+                if kind == "dup":
+                    s.add("#keep", "t%d" % o)
+                    opts = rng.choice([1, 9, 0x29])
+                    s.add("xdup", "b", "t%d" % o, "t5", opts, "-", "-")
+                    s.add("xdump", "t5")
+                    s.add("xshare", "t%d" % o, "t5")
+                    self.use(s, 0, 5, o, exact=True, validated=not ponly, flags=bool(opts & DUP_WITH_FLAGS) and not hasany)
+                    # (into the other context: at the end of the script, see the known finding dup-to-ctx-union-member)
+                    tail.add("xdump", "t%d" % o)
+                    tail.add("xdup", "B", "t%d" % o, "t5", rng.choice([1, 9]), "c1", "-")
+                    tail.add("xdump", "t5")
+                    tail.add("xctxof", "t5", "c1")
+                    self.use(tail, 1, 5, None, validated=not ponly)
+                    # single nodes with their parents: a union leaf, a list instance, a key
+                    for _ in range(2):
+                        e = rng.choice(["s", "S"])
+                        q = tail if e == "S" else s
+                        q.add("xdup", e, "t%d#%d" % (o, rng.randrange(1, 12)), "t5", rng.choice([5, 4, 13, 7]), "c1" if e == "S" else "-", "-")
+                        q.add("xdump", "t5")
+                        self.use(q, 1 if e == "S" else 0, 5, None, validated=False)
+                    s.add("xdump", "t%d" % o)
+                else:
+                    tj = rng.choice([t for t in usable if t >= 26] or [1])
+                    for mo in (0, MERGE_DESTRUCT, rng.choice([2, 4, 6, 3, 5, 7])):
+                        s.add("dup", "t%d" % tj, "t2", DUP_RECURSIVE | DUP_WITH_FLAGS)
+                        s.add("dup", "t%d" % o, "t3", DUP_RECURSIVE | DUP_WITH_FLAGS)
+                        src = 3
+                        if not mo & MERGE_DESTRUCT and rng.random() < 0.6:
+                            src = o                   # the origin tree itself is the (not consumed) source
+                        s.add("xdump", "t2")
+                        s.add("xdump", "t%d" % src)
+                        s.add("xmerge", rng.choice(["s", "m"]), "t2", "t%d" % src, mo)
+                        s.add("xdump", "t2")
+                        s.add("xdump", "t%d" % src)
+                        s.add("inv", "t2")
+                        self.use(s, 0, 2, None, validated=False)
+                    # into an empty target: a copy of the source
+                    s.add("free", "t2")
+                    s.add("xdump", "t2")
+                    s.add("xmerge", "s", "t2", "t%d" % o, 0)
+                    s.add("xdump", "t2")
+                    s.add("xdump", "t%d" % o)
+                    self.use(s, 0, 2, o, exact=True, validated=not ponly)
+            s.cmds += tail.cmds
+            L.append(script_line(s))
+        return L
+
+    def judge(self, line, out):
+        j = self._m if "\t#J merge\t" in line else self._d
+        j.last_err = getattr(self, "last_err", "")
+        j.skipped = 0
+        res = j.judge(line, out)
+        self.skipped = getattr(self, "skipped", 0) + j.skipped
+        if res and res[0] is None and "LYB print parsed back) failed" in res[1] and (" c1 -)" in res[1]) and \
+                ("made by: xdup S " in res[1] or "made by: xdup B " in res[1]):
+            return ("dup-to-ctx-union-member", res[1])
+        return res
